@@ -421,6 +421,31 @@ func (ex *Exec) selectInstr(st *State, frID int, in *ssa.Select, k func(*State, 
 			if g, _, ok := ex.chanInv(st2, s.Chan, r[0], et); ok {
 				st2.Assume(Implies(r[1].(Term), g))
 			}
+			if ex.contract != nil && st2.Frames[frID].Fn == ex.fn {
+				txt := ex.caseText(in, i)
+				for label, cs := range ex.contract.RecvAssumes {
+					if !strings.Contains(txt, label) {
+						continue
+					}
+					for _, c := range cs {
+						env := ex.baseEnv(st2)
+						if ex.fenv != nil {
+							for k, v := range ex.fenv.vars {
+								env.vars[k] = v
+							}
+						}
+						env.frame = st2.Frames[frID]
+						env.bound = map[string]EV{"$recv": {V: r[0], T: et}}
+						g, err := env.evalBool(c.E)
+						if err != nil {
+							ex.bindingError(c, err)
+							continue
+						}
+						st2.Assume(g)
+						ex.assumed[fmt.Sprintf("assumed (unproved) about values received in %s case %q: %s", funcKey(ex.fn), label, c.Src)] = true
+					}
+				}
+			}
 			k(st2, mk(st2, i, r[1].(Term), i, r[0]))
 		}
 	}
